@@ -55,6 +55,20 @@ def consume_grouped(api: str, src) -> tuple[list, str | None]:
     return out, None
 
 
+def consume_to_graph(api: str, src, quads: bool) -> tuple[list, str | None]:
+    """What a Graph/Dataset holds after Graph.parse() returned or raised (rdflib only)."""
+    import rdflib  # noqa: PLC0415
+    from mc import drivers as DR  # noqa: PLC0415
+
+    g = rdflib.Dataset() if quads else rdflib.Graph()
+    exc = None
+    try:
+        g.parse(src, format="jelly")
+    except Exception as e:  # noqa: BLE001
+        exc = type(e).__name__
+    return DR._graph_events(g), exc
+
+
 def judge(entry, k: int, got: list, mode: str, api: str) -> str | None:
     full = entry["flat"]
     complete = []
@@ -63,6 +77,15 @@ def judge(entry, k: int, got: list, mode: str, api: str) -> str | None:
             complete += evs
         else:
             break
+    if mode == "graph_parse":
+        gs, fulls = set(got), {e for e in full if e[0] == "st"}
+        want = {e for e in complete if e[0] == "st"}
+        if not gs <= fulls:
+            return f"after Graph.parse the graph holds statements not in the original: {gs - fulls}"
+        if not want <= gs:
+            return (f"after Graph.parse the graph lacks {len(want - gs)} statements of frames that "
+                    f"were delivered completely before offset {k}")
+        return None
     if mode == "flat":
         if got != full[: len(got)]:
             return f"yielded {got} which is not a prefix of the original {full}"
@@ -93,8 +116,11 @@ def run_case(case: dict) -> str | None:
     k = case["cut"]
     data = entry["data"][:k]
     src = io.BytesIO(data) if case["source"] == "bytesio" else faultio.ScheduleRaw(data)
-    fn = consume_flat if case["mode"] == "flat" else consume_grouped
-    got, exc = fn(case["api"], src)
+    if case["mode"] == "graph_parse":
+        got, exc = consume_to_graph(case["api"], src, entry["cls"] != "triple")
+    else:
+        fn = consume_flat if case["mode"] == "flat" else consume_grouped
+        got, exc = fn(case["api"], src)
     return judge(entry, k, got, case["mode"], case["api"])
 
 
@@ -116,7 +142,7 @@ def shard(job) -> dict:
             for api in ("generic", "rdflib"):
                 if api == "rdflib" and not entry["rdf11"]:
                     continue
-                for mode in ("flat", "grouped"):
+                for mode in ("flat", "grouped") + (("graph_parse",) if api == "rdflib" else ()):
                     case = {"corpus": size, "stream": entry["name"], "cut": k, "source": source,
                             "api": api, "mode": mode}
                     acc.evals += 1
@@ -151,7 +177,8 @@ def run(ctx) -> None:
         rule=(
             "every byte offset 0..len of every base stream (6 scopes x 3 physical types x frame "
             "sizes, namespace and empty-frame streams) x {BytesIO, non-seekable raw} x {flat, "
-            "grouped} x {generic, rdflib (RDF 1.1 streams)}; non-trivial = cut strictly inside a "
+            "grouped, and what a Graph holds after Graph.parse (rdflib)} x {generic, rdflib (RDF 1.1 "
+            "streams)}; non-trivial = cut strictly inside a "
             "frame; expected content per frame comes from the reference decoder"
         ),
     )
